@@ -72,12 +72,12 @@ CLAIMED['C19'] = dict(
          'to_registers/fromRegisters, odd totals included), *_general (bit groups of any length come back zero-filled to whole '
          'bytes), register_image / register_image_value / register_image_aligned (to_registers = the conventional image: big/big '
          'network order, little word order reverses the words, little byte order swaps the bytes of each word), '
-         'builder_rejects_out_of_range; counterexamples roundtrip_full_counterexample (bit group not in whole bytes) and '
-         'roundtrip_coils_counterexample (fromCoils drops the word order). The model is compared with the real builder/decoder '
+         'builder_rejects_out_of_range, roundtrip_coils (through to_coils/fromCoils, every order; repaired); counterexample '
+         'roundtrip_full_counterexample (bit group not in whole bytes). The model is compared with the real builder/decoder '
          'on generated sequences and raw decoder runs each run, and the real bytes/registers with the Lean spec image.',
     design='6/C19', technique='Lean 4 proof (builder/decoder model vs conventional register image) + differential correspondence',
     note='Numbers are exchanged as bit patterns; Python number <-> pattern is struct (trusted; NaNs as struct reproduces them). '
-         'Known findings: bits-zero-fill, fromcoils-wordorder.')
+         'Known finding: bits-zero-fill.')
 
 CLAIMED['C03'] = dict(
     text='Kernel-checked: tcp/rtu/ascii/tls/binary_build_spec (buildPacket = the specified ADU: MBAP with length = PDU + 1, CRC-16 low byte '
